@@ -15,6 +15,7 @@ import (
 	"go/constant"
 	"go/token"
 	"go/types"
+	"os"
 	"sort"
 	"strings"
 
@@ -111,30 +112,31 @@ type FnCtx struct {
 	D    *Decls
 	pfx  string
 
-	arrSorts map[string]Sort
-	env      map[ssa.Value]*Bind
-	defs     []string
-	obs      []*Obligation
-	nfresh   int
-	nobs     map[string]int
-	bvc      map[*ssa.BasicBlock]*BlockVC
-	loops    map[*ssa.BasicBlock]*Loop
-	loopList []*Loop
-	entry    *State
-	names    map[string]ssa.Value // source-level name -> value (from DebugRef / params)
-	nameAll  map[string][]ssa.Value
+	arrSorts    map[string]Sort
+	env         map[ssa.Value]*Bind
+	defs        []string
+	obs         []*Obligation
+	nfresh      int
+	nobs        map[string]int
+	bvc         map[*ssa.BasicBlock]*BlockVC
+	loops       map[*ssa.BasicBlock]*Loop
+	loopList    []*Loop
+	entry       *State
+	names       map[string]ssa.Value // source-level name -> value (from DebugRef / params)
+	nameAll     map[string][]ssa.Value
 	assumptions map[string]bool
-	usedLib  map[string]bool
-	retBlocks []*ssa.BasicBlock
-	curItems *[]Item
-	cur      *State
-	curBlock *ssa.BasicBlock
-	defers   []*ssa.Defer
+	usedLib     map[string]bool
+	retBlocks   []*ssa.BasicBlock
+	curItems    *[]Item
+	cur         *State
+	curBlock    *ssa.BasicBlock
+	defers      []*ssa.Defer
 	axiomsAdded bool
 	unsupported []string
-	allocSeq int
-	grounded map[string]bool
-	home     *types.Package
+	allocSeq    int
+	grounded    map[string]bool
+	usesPtrTag  bool
+	home        *types.Package
 }
 
 func (v *Verifier) newFnCtx(fn *ssa.Function, prop string) *FnCtx {
@@ -552,9 +554,9 @@ func (c *FnCtx) typeFacts(v Val, st *State) string {
 			for _, id := range ids {
 				alts = append(alts, sEq(sx("itag", v.T), sInt(int64(id))))
 			}
-			return sAnd(sOr(alts...), sx("<", sx("ipay", v.T), st.alloc), sx("<=", "0", sx("ipay", v.T)), sx("<=", "0", sx("itag", v.T)))
+			return sAnd(sOr(alts...), sx("<", sx("ipay", v.T), st.alloc), sx("<=", "0", sx("ipay", v.T)), sx("<=", "0", sx("itag", v.T)), c.noTypedNil(v.T))
 		}
-		return sAnd(sx("<=", "0", sx("itag", v.T)), sImp(sEq(sx("itag", v.T), "0"), sEq(sx("ipay", v.T), "0")))
+		return sAnd(sx("<=", "0", sx("itag", v.T)), sImp(sEq(sx("itag", v.T), "0"), sEq(sx("ipay", v.T), "0")), c.noTypedNil(v.T))
 	case *types.Basic:
 		if u.Kind() == types.String {
 			return sx("<=", "0", sx(c.ufun("strlen", []Sort{SInt}, SInt), v.T))
@@ -564,6 +566,22 @@ func (c *FnCtx) typeFacts(v Val, st *State) string {
 		}
 	}
 	return "true"
+}
+
+// noTypedNil: interface values never hold a nil pointer (global discipline: assumed wherever an
+// interface value is obtained, checked at every MakeInterface of a pointer in the module).
+func (c *FnCtx) noTypedNil(x string) string {
+	c.ufun("ptrtag", []Sort{SInt}, SBool)
+	c.usesPtrTag = true
+	return sImp(sx("ptrtag", sx("itag", x)), sNot(sEq(sx("ipay", x), "0")))
+}
+
+// ix(off, i): position of element i of a slice with offset off. Uninterpreted with the defining
+// axiom ix(a,b) = a+b so that quantifier triggers never contain arithmetic.
+func (c *FnCtx) ix(off, i string) string {
+	c.D.add("ix", "(declare-fun ix (Int Int) Int)")
+	c.D.add("ax:ix", "(assert (forall ((a Int) (b Int)) (! (= (ix a b) (+ a b)) :pattern ((ix a b)))))")
+	return sx("ix", off, i)
 }
 
 func (c *FnCtx) ufun(name string, args []Sort, res Sort) string {
@@ -696,6 +714,7 @@ func (c *FnCtx) findLoops() {
 				c.V.instrMods(in, inLoop, l.Mods)
 			}
 		}
+		c.autoInvariants(l)
 		// labels: block comment of header e.g. "for.loop", "rangeindex.loop"; source label via DebugRef is not available, so
 		// labelled loops are matched through the contract key being the label of a `continue`/`break` target.
 		if c.con != nil {
@@ -750,19 +769,32 @@ func okName(b *ssa.BasicBlock) string { return fmt.Sprintf("ok_%d", b.Index) }
 // ---------- main entry ----------
 
 type FnVC struct {
-	Fn      *ssa.Function
-	Key     string
-	Prelude string // declarations + definitions + block equations + negated goal
-	Obs     []*Obligation
-	Assumptions []string
-	UsedLib []string
-	Unsupported []string
+	Fn               *ssa.Function
+	Key              string
+	Decls            string   // declarations and ground axioms
+	Defs             []string // global definitional equalities
+	Order            []*ssa.BasicBlock
+	BVC              map[*ssa.BasicBlock]*BlockVC
+	Obs              []*Obligation
+	Assumptions      []string
+	UsedLib          []string
+	Unsupported      []string
 	NBlocks, NInstrs int
+	Mismatch         string
 }
 
 func (c *FnCtx) generate() (vc *FnVC, err error) {
 	defer func() {
 		if r := recover(); r != nil {
+			msg := fmt.Sprint(r)
+			if strings.HasPrefix(msg, "spec:") && os.Getenv("GOVC_STRICT_SPEC") == "" {
+				// the contract no longer fits the code (a name it mentions is gone, a type changed):
+				// the function cannot be shown to meet its contract; report that as a failed obligation.
+				ob := &Obligation{Name: strings.Replace(c.fnKey(), ":", ".", 1) + "/contract-mismatch", Kind: "contract-mismatch", Fn: c.fnKey(), Text: msg, Safety: true}
+				vc = &FnVC{Fn: c.fn, Key: c.fnKey(), Obs: []*Obligation{ob}, Mismatch: msg}
+				err = nil
+				return
+			}
 			err = fmt.Errorf("%s: %v", c.fnKey(), r)
 		}
 	}()
@@ -794,23 +826,25 @@ func (c *FnCtx) generate() (vc *FnVC, err error) {
 		c.translateBlock(b, entryItems)
 	}
 	// assemble
-	var sb strings.Builder
-	var eqs []string
 	for _, b := range order {
-		bv := c.bvc[b]
-		eqs = append(eqs, fmt.Sprintf("(assert (= %s %s))", okName(b), c.blockFormula(bv)))
 		c.D.constant(okName(b), SBool)
 	}
 	c.addSpecAxioms()
-	sb.WriteString(c.D.String())
-	for _, d := range c.defs {
-		sb.WriteString("(assert " + d + ")\n")
+	if c.usesPtrTag {
+		for id, t := range c.U.typeByID {
+			if t == nil {
+				c.defs = append(c.defs, "(not (ptrtag 0))")
+				continue
+			}
+			_, isPtr := t.Underlying().(*types.Pointer)
+			if isPtr {
+				c.defs = append(c.defs, fmt.Sprintf("(ptrtag %d)", id))
+			} else {
+				c.defs = append(c.defs, fmt.Sprintf("(not (ptrtag %d))", id))
+			}
+		}
 	}
-	for _, e := range eqs {
-		sb.WriteString(e + "\n")
-	}
-	sb.WriteString(fmt.Sprintf("(assert (not %s))\n", okName(fn.Blocks[0])))
-	vc = &FnVC{Fn: fn, Key: c.fnKey(), Prelude: sb.String(), Obs: c.obs, NBlocks: len(fn.Blocks), Unsupported: c.unsupported}
+	vc = &FnVC{Fn: fn, Key: c.fnKey(), Decls: c.D.String(), Defs: c.defs, Order: order, BVC: c.bvc, Obs: c.obs, NBlocks: len(fn.Blocks), Unsupported: c.unsupported}
 	for a := range c.assumptions {
 		vc.Assumptions = append(vc.Assumptions, a)
 	}
@@ -823,38 +857,6 @@ func (c *FnCtx) generate() (vc *FnVC, err error) {
 		vc.NInstrs += len(b.Instrs)
 	}
 	return vc, nil
-}
-
-func (c *FnCtx) blockFormula(bv *BlockVC) string {
-	// exits
-	var ex []string
-	for _, e := range bv.Exits {
-		tail := "true"
-		if e.Target != nil {
-			tail = okName(e.Target)
-		}
-		ex = append(ex, sImp(e.Cond, c.fold(e.Items, tail)))
-	}
-	return c.fold(bv.Items, sAnd(ex...))
-}
-
-func (c *FnCtx) fold(items []Item, tail string) string {
-	f := tail
-	for i := len(items) - 1; i >= 0; i-- {
-		it := items[i]
-		switch it.Kind {
-		case "assume":
-			f = sImp(it.F, f)
-		case "cover":
-			f = sAnd(sNot(it.Ob.Sel), f)
-		case "assert":
-			if it.F == "true" {
-				continue
-			}
-			f = sAnd(sImp(it.Ob.Sel, it.F), sImp(it.F, f))
-		}
-	}
-	return f
 }
 
 func (c *FnCtx) bindParam(p ssa.Value, items *[]Item) {
@@ -873,7 +875,9 @@ func (c *FnCtx) collectNames() {
 		c.names[p.Name()] = p
 	}
 	for _, p := range fn.FreeVars {
-		c.names[p.Name()] = p
+		if strings.HasSuffix(fn.Name(), "$bound") {
+			c.names[p.Name()] = p // bound-method closure: the receiver value itself
+		}
 	}
 	for _, b := range fn.Blocks {
 		for _, in := range b.Instrs {
@@ -900,5 +904,91 @@ func (c *FnCtx) collectNames() {
 				}
 			}
 		}
+	}
+}
+
+// autoInvariants infers bounds for monotone integer loop counters:
+// a header phi whose back-edge values are all phi+k (k>0) satisfies phi >= init,
+// with phi-k it satisfies phi <= init. The inferred invariants are asserted and
+// checked like written ones (obligations loopN/inv#auto...).
+func (c *FnCtx) autoInvariants(l *Loop) {
+	h := l.Header
+	n := 0
+	for _, in := range h.Instrs {
+		phi, ok := in.(*ssa.Phi)
+		if !ok {
+			break
+		}
+		b, isBasic := phi.Type().Underlying().(*types.Basic)
+		if !isBasic || b.Info()&types.IsInteger == 0 {
+			continue
+		}
+		dir := 0
+		var inits []ssa.Value
+		okShape := true
+		for i, p := range h.Preds {
+			e := phi.Edges[i]
+			if isBackEdge(p, h) {
+				bo, ok := e.(*ssa.BinOp)
+				if !ok || bo.X != ssa.Value(phi) {
+					okShape = false
+					break
+				}
+				k, ok := bo.Y.(*ssa.Const)
+				if !ok || k.Int64() <= 0 {
+					okShape = false
+					break
+				}
+				d := 0
+				if bo.Op == token.ADD {
+					d = 1
+				} else if bo.Op == token.SUB {
+					d = -1
+				}
+				if d == 0 || (dir != 0 && dir != d) {
+					okShape = false
+					break
+				}
+				dir = d
+			} else {
+				inits = append(inits, e)
+			}
+		}
+		if !okShape || dir == 0 || len(inits) != 1 {
+			continue
+		}
+		init := inits[0]
+		if in, ok := init.(ssa.Instruction); ok && l.Blocks[in.Block()] {
+			continue
+		}
+		// range-over-slice loops: the hidden index also satisfies phi+1 <= len
+		if phi.Comment == "rangeindex" && dir > 0 {
+			if iff, ok := h.Instrs[len(h.Instrs)-1].(*ssa.If); ok {
+				if cmp, ok := iff.Cond.(*ssa.BinOp); ok && cmp.Op == token.LSS {
+					if inc, ok := cmp.X.(*ssa.BinOp); ok && inc.X == ssa.Value(phi) {
+						if lv, ok := cmp.Y.(ssa.Instruction); !ok || !l.Blocks[lv.Block()] {
+							n++
+							phiV, lenV := ssa.Value(phi), cmp.Y
+							cl := &Clause{Kind: "invariant", Text: "auto: range index + 1 <= len", Loop: fmt.Sprint(l.Ord), Ord: 100 + n}
+							cl.Auto = func(get func(v interface{}) string) string {
+								return sx("<=", sx("+", get(phiV), "1"), get(lenV))
+							}
+							l.Invs = append(l.Invs, cl)
+						}
+					}
+				}
+			}
+		}
+		n++
+		op := ">="
+		if dir < 0 {
+			op = "<="
+		}
+		phiV, initV := ssa.Value(phi), init
+		cl := &Clause{Kind: "invariant", Text: fmt.Sprintf("auto: %s %s %s", exprText(phi), op, exprText(init)), Loop: fmt.Sprint(l.Ord), Ord: 100 + n}
+		cl.Auto = func(get func(v interface{}) string) string {
+			return sx(op, get(phiV), get(initV))
+		}
+		l.Invs = append(l.Invs, cl)
 	}
 }
